@@ -2,8 +2,40 @@
 open Model
 open Util
 
+let lpos_of = function
+  | "valstr" -> PValStr | "val" -> PVal | "const" -> PConst | "field" -> PField | "likeesc" -> PLikeEsc
+  | "default" -> PDefault | "tcomment" -> PTComment | "ccomment" -> PCComment | "enum" -> PEnum
+  | "typecreate" -> PTypeCreate | "typeadd" -> PTypeAdd | "typeaddbefore" -> PTypeAddBefore
+  | "typerenval" -> PTypeRenVal | _ -> failwith "lpos"
+
+let lkinds_of kind payload =
+  List.map (fun h -> match kind with
+    | "s" -> KStr (str_of_hex h)
+    | "c" -> (match str_of_hex h with [c] -> KChar c | _ -> failwith "char")
+    | "y" -> KBytes (bytes_of_hex h)
+    | _ -> failwith "kind") (String.split_on_char '.' payload)
+
+let res_str = function Ok s -> hex_of_str s | Panic -> "PANIC"
+
 let dispatch (t : string list) : string =
   match t with
+  | ["lit"; b; pos; kind; payload] ->
+      res_str (lit_render (backend_of b) (lpos_of pos) (lkinds_of kind payload))
+  | ["declit"; b; pos; kind; stmt] ->
+      let b = backend_of b in
+      (match lit_template b (lpos_of pos) with
+       | None -> "NO-TEMPLATE"
+       | Some ((pre, sep), suf) ->
+           let stmt = str_of_hex stmt in
+           if kind = "y" then
+             (match decode_bytes_at b pre stmt with
+              | None -> "NOT-A-LITERAL"
+              | Some (bs, rest) -> Printf.sprintf "%s %s %s" (hex_of_bytes bs) (hex_of_str rest) (hex_of_str suf))
+           else
+             (match decode_strings_at b pre sep stmt with
+              | None -> "NOT-A-LITERAL"
+              | Some (ss, rest) ->
+                  Printf.sprintf "%s %s %s" (String.concat "." (List.map hex_of_str ss)) (hex_of_str rest) (hex_of_str suf)))
   | ["esc"; b; h] ->
       let b = backend_of b and s = str_of_hex h in
       let e = escape_string b s in
